@@ -1,0 +1,14 @@
+//go:build verif
+
+package fiat
+
+// Exports for the verification harness.
+
+// VerifRaw returns the internal (Montgomery-domain) limbs of a scalar-field element.
+func (e *SM2ScalarElement) VerifRaw() [4]uint64 { return [4]uint64(e.x) }
+
+// VerifSetRaw sets the internal (Montgomery-domain) limbs of a scalar-field element.
+func (e *SM2ScalarElement) VerifSetRaw(raw [4]uint64) *SM2ScalarElement {
+	copy(e.x[:], raw[:])
+	return e
+}
